@@ -102,6 +102,71 @@ def rule_X3(ctx) -> None:
         ctx.proved("X3", "get_type_reference:dispatch", mod.loc(fn), " < ".join(want))
 
 
+def rule_X5(ctx) -> None:
+    """the alias must distinguish every pair of packages that the import path distinguishes (necessary for collision-freedom):
+    it has to depend on the distance walked up and on the path below the shared ancestor"""
+    mod = ctx.repo.mod(M_IMPORTING)
+    for q in ("reference_cousin", "reference_ancestor"):
+        fn = mod.func(q)
+        paths = Interp(mod).run(fn)
+        ctx.count(len(paths))
+        bad = None
+        n = 0
+        for p in paths:
+            adds = [e for e in p.events if e.kind == "call" and dotted(e.data[1]).endswith(".add")]
+            if not adds or p.value is None or p.value[0] != "fstr":
+                continue
+            imp = adds[0].data[2][0]
+            if imp[0] != "fstr":
+                continue
+            holes = [x[1] for x in imp[1] if x[0] == "fmt"]
+            if len(holes) < 2:
+                continue
+            n += 1
+            from_path, alias = holes[0], holes[-1]
+            # variables (parameter-derived leaves) of the import path vs of the alias
+            def leaves(t):
+                return {show(x) for x in walk(t) if x[0] == "call" and dotted(x[1]) == "len"} | {x[1] for x in walk(t) if x[0] == "n" and x[1] in ("current_package", "py_package", "py_type")}
+            need = leaves(from_path)
+            got = leaves(alias)
+            lens_from = {l for l in need if l.startswith("len(")}
+            lens_alias = {l for l in got if l.startswith("len(")}
+            if "current_package" in need and "current_package" not in got and not (lens_from & lens_alias):
+                bad = (q, show(alias), sorted(need - got))
+        name = f"{q}:alias-depends-on-distance"
+        if bad:
+            ctx.refuted("X5", name, ",".join(bad[2])[:60], mod.loc(fn),
+                        f"the alias {bad[1]} does not depend on how far up the import walks (the `from` path does): two packages with the same path below different shared ancestors "
+                        "get the same alias and the later import shadows the earlier one", "module a.b.c referring to a.x.T and a.b.x.T")
+        elif n == 0:
+            ctx.inconclusive("X5", name, "import line / alias not in the recognised form", mod.loc(fn))
+        else:
+            ctx.proved("X5", name, mod.loc(fn))
+
+
+def rule_X6(ctx) -> None:
+    """RPC input and output types are referenced the same way (never unwrapped)"""
+    from ..src import M_MODELS
+
+    mod = ctx.repo.mod(M_MODELS)
+    kws = {}
+    for q in ("ServiceMethodCompiler.py_input_message_type", "ServiceMethodCompiler.py_output_message_type"):
+        fn = mod.func(q)
+        calls = [c for c in ast.walk(fn) if isinstance(c, ast.Call) and ast.unparse(c.func) == "get_type_reference"]
+        if len(calls) != 1:
+            ctx.inconclusive("X6", "rpc-types:same-reference-mode", f"{q}: {len(calls)} get_type_reference calls", mod.loc(fn))
+            return
+        kws[q] = {k.arg: ast.unparse(k.value) for k in calls[0].keywords if k.arg not in ("source_type",)}
+    a, b = kws.values()
+    if a == b and a.get("unwrap") == "False":
+        ctx.proved("X6", "rpc-types:same-reference-mode", mod.rel)
+    else:
+        diff = {k: (a.get(k), b.get(k)) for k in set(a) | set(b) if a.get(k) != b.get(k)}
+        ctx.refuted("X6", "rpc-types:same-reference-mode", str(diff or {"unwrap": a.get("unwrap")})[:80], mod.rel,
+                    f"the RPC input and output types are referenced with different arguments {diff}: without unwrap=False a wrapper / Timestamp / Duration message type is replaced by "
+                    "Optional[...] / datetime / timedelta, which is not a message class the channel can use", "rpc GetName(Req) returns (google.protobuf.StringValue)")
+
+
 def rule_X4(ctx) -> None:
     mod = ctx.repo.mod(M_INIT)
     fn = mod.func("Message._type_hints")
@@ -121,7 +186,7 @@ def rule_X4(ctx) -> None:
 
 
 def run(ctx) -> None:
-    for name, fn in (("X1", template.rule_X1), ("X2", rule_X2), ("X3", rule_X3), ("X4", rule_X4)):
+    for name, fn in (("X1", template.rule_X1), ("X2", rule_X2), ("X3", rule_X3), ("X4", rule_X4), ("X5", rule_X5), ("X6", rule_X6)):
         ctx.rules_run.append(name)
         fn(ctx)
     ctx.notes.append("NOT DECIDED: relative-import depth arithmetic, alias collisions, circular import behaviour")
